@@ -11,6 +11,7 @@ import (
 	"bytes"
 	"net/http"
 	"net/url"
+	"os"
 	"strconv"
 	"strings"
 	"time"
@@ -303,7 +304,24 @@ func verifSetup() *vRun {
 
 var verifDirectoryName string
 
-func verifDirectory() string { return verifDirectoryName }
+// verifDirectory: "" = RAM storage; DISK=1 selects Directory storage (the in-harness file system
+// symbolically, a fresh temporary directory natively).
+func verifDirectory() string {
+	if verifParam("DISK", 0) == 0 {
+		verifDirectoryName = ""
+		return ""
+	}
+	if verifSymbolic() {
+		verifDirectoryName = "/vfs"
+	} else {
+		d, err := os.MkdirTemp("", "verif-gohlslib")
+		if err != nil {
+			panic(err)
+		}
+		verifDirectoryName = d
+	}
+	return verifDirectoryName
+}
 
 // ---------- one write ----------
 
